@@ -41,6 +41,29 @@ pub struct TxInfo {
     pub secret: bool,
 }
 
+/// panics of the node's own threads during the current history (the tx-pool service runs on the global
+/// runtime: a panic there ends the service's task and the pool stops following the chain)
+pub static SERVICE_PANICS: std::sync::Mutex<Vec<String>> = std::sync::Mutex::new(Vec::new());
+pub fn install_panic_hook() {
+    let default = std::panic::take_hook();
+    std::panic::set_hook(Box::new(move |info| {
+        let name = std::thread::current().name().unwrap_or("").to_string();
+        if name.starts_with("GlobalRt") || name.contains("tx-pool") {
+            if let Ok(mut v) = SERVICE_PANICS.lock() { v.push(format!("{}: {}", name, info)); }
+        }
+        default(info);
+    }));
+}
+/// the known defect of the pool (C11 findings F9 / F3 / F10) a service panic of this history belongs to
+pub fn service_panic_signature() -> Option<(&'static str, String)> {
+    let v = SERVICE_PANICS.lock().ok()?;
+    for m in v.iter() {
+        if m.contains("inconsistent pool") { return Some(("pool-service-panicked-inconsistent-pool", m.clone())); }
+        if m.contains("invalid key") { return Some(("pool-service-panicked-invalid-key", m.clone())); }
+    }
+    None
+}
+
 pub struct World {
     pub cfg: WorldCfg,
     pub consensus: Consensus,
@@ -230,7 +253,14 @@ impl World {
                 std::thread::yield_now();
             }
         }
-        self.viol.push(json!({"what": "the pool never caught up with the chain tip (60 s)", "history": self.jops}));
+        let mut v = json!({"what": "the pool never caught up with the chain tip (60 s)", "history": self.jops});
+        if let Some((sig, msg)) = service_panic_signature() {
+            // the service's task ended in a panic that belongs to a recorded defect of the pool
+            v["signature"] = json!(sig);
+            v["service_panic"] = json!(msg);
+            v["history"] = json!(self.jops[self.jops.len().saturating_sub(12)..].to_vec());
+        }
+        self.viol.push(v);
         None
     }
 
